@@ -26,6 +26,16 @@ fn try_restore(text: &str) -> (String, String) {
     }
 }
 
+/// third entry point: the package's own `into_snapshot()` (validates, hands the snapshot out), then `from_snapshot`
+fn try_restore_into(text: &str) -> (String, String) {
+    let r = std::panic::catch_unwind(|| PriceLevelSnapshotPackage::from_json(text).and_then(|p| p.into_snapshot()).and_then(PriceLevel::from_snapshot));
+    match r {
+        Ok(Ok(l)) => ("ok".into(), digest(&l)),
+        Ok(Err(_)) => ("err".into(), String::new()),
+        Err(_) => ("panic".into(), String::new()),
+    }
+}
+
 fn try_restore_pkg(text: &str) -> (String, String) {
     let r = std::panic::catch_unwind(|| PriceLevelSnapshotPackage::from_json(text).and_then(PriceLevel::from_snapshot_package));
     match r {
@@ -181,6 +191,8 @@ pub fn run(sc: &Value, pk: usize) -> Vec<String> {
     // the unmodified package must restore to the same content
     let base = try_restore(&text);
     out.push(json!({"k": "pkg", "pk": pk, "len": bytes.len(), "orig": orig, "res": base.0, "same": base.1 == orig, "text": text}).to_string());
+    // every tenth byte fault also through into_snapshot()
+    let mut nth = 0usize;
     // byte faults
     let subs: [u8; 3] = [b'7', b'"', 0xC3];
     let stride = sc["stride"].as_u64().unwrap_or(1) as usize;
@@ -192,6 +204,10 @@ pub fn run(sc: &Value, pk: usize) -> Vec<String> {
             let mut b = bytes.clone();
             b[pos] = s;
             if let Ok(t) = String::from_utf8(b) {
+                nth += 1;
+                if nth % 10 == 0 {
+                    line(&mut out, pk, "subinto", pos, &format!("{s}"), false, try_restore_into(&t), &orig, t.as_bytes());
+                }
                 line(&mut out, pk, "sub", pos, &format!("{s}"), false, try_restore(&t), &orig, t.as_bytes());
             } else {
                 // not valid UTF-8: the text API cannot even receive it; the byte-slice entry point is serde's
@@ -232,6 +248,7 @@ pub fn run(sc: &Value, pk: usize) -> Vec<String> {
             let t = q.to_string();
             line(&mut out, pk, "struct", 0, name, false, try_restore(&t), &orig, t.as_bytes());
             line(&mut out, pk, "structpkg", 0, name, false, try_restore_pkg(&t), &orig, t.as_bytes());
+            line(&mut out, pk, "structpkg", 1, name, false, try_restore_into(&t), &orig, t.as_bytes());
         }
         let maxpairs = sc["pairs"].as_u64().unwrap_or(300) as usize;
         let mut np = 0;
